@@ -1,9 +1,24 @@
 package sugardb
 
+// C15 — list commands implement a sequence. One inductive step per command: arbitrary stored
+// value under the key (absent / list of 0..N arbitrary elements / a string), arbitrary
+// arguments, real dispatcher; reply and post-state against a reference sequence model.
+
 import (
+	"strconv"
+
 	vr "github.com/echovault/sugardb/internal/verifrt"
 )
 
+func c15MaxLen() int {
+	if vr.Tier() > 0 {
+		return 4
+	}
+	return 3
+}
+
+// refNormRange normalises an inclusive [start,end] range over n elements the way the property
+// words it: negative indices count from the tail, out-of-range indices are clamped.
 func refNormRange(n, start, end int) (int, int, bool) {
 	if start < 0 {
 		start = n + start
@@ -23,28 +38,413 @@ func refNormRange(n, start, end int) (int, int, bool) {
 	return start, end, true
 }
 
-// Verif_C15_LRange: LRANGE on an arbitrary list with arbitrary 64-bit start/end.
+const (
+	kAbsent = iota
+	kList
+	kOther
+)
+
+type c15Pre struct {
+	kind int
+	list []string
+	str  string
+}
+
+// c15Preset installs an arbitrary pre-state under key k.
+func c15Preset(s *SugarDB, k string, name string, kinds int, maxLen int) c15Pre {
+	p := c15Pre{kind: vr.Choose(name+"_kind", kinds)}
+	switch p.kind {
+	case kList:
+		p.list = symList(name, maxLen)
+		verifPreset(s, 0, k, append([]string{}, p.list...))
+	case kOther:
+		p.str = vr.Tok(name + "_str")
+		verifPreset(s, 0, k, p.str)
+	}
+	return p
+}
+
+func listEqSym(a, b []string) bool {
+	if len(a) != len(b) {
+		return false
+	}
+	ok := true
+	for i := range a {
+		ok = vr.And(ok, vr.StrEq(a[i], b[i]))
+	}
+	return ok
+}
+
+// c15Unchanged asserts that the key still holds exactly its pre-state.
+func c15Unchanged(s *SugarDB, k string, p c15Pre, ob string) {
+	e, ok := s.store[0][k]
+	switch p.kind {
+	case kAbsent:
+		vr.Assert(!ok, ob)
+	case kList:
+		l, isl := e.Value.([]string)
+		vr.Assert(ok && isl && listEqSym(l, p.list), ob)
+	case kOther:
+		v, iss := e.Value.(string)
+		vr.Assert(ok && iss && v == p.str, ob)
+	}
+}
+
+// c15PostList asserts that the key now holds list want (an empty list may be stored or absent).
+func c15PostList(s *SugarDB, k string, want []string, ob string) {
+	l, ok := storedList(s, 0, k)
+	if len(want) == 0 {
+		_, exists := s.store[0][k]
+		vr.Assert(!exists || (ok && len(l) == 0), ob)
+		return
+	}
+	vr.Assert(ok && listEqSym(l, want), ob)
+}
+
+func Verif_C15_LLen() {
+	s := verifServer()
+	k := vr.Tok("k")
+	p := c15Preset(s, k, "l", 3, c15MaxLen())
+	reply, err, panicked := verifRun(s, "LLEN", k)
+	vr.Assert(!panicked, "C15.llen.nopanic")
+	if panicked {
+		return
+	}
+	if p.kind == kOther {
+		vr.Assert(err != nil, "C15.llen.wrongtype")
+	} else {
+		vr.Assert(err == nil && string(reply) == encInt(len(p.list)), "C15.llen.reply")
+	}
+	c15Unchanged(s, k, p, "C15.llen.unchanged")
+	vr.Reach("end")
+}
+
+func Verif_C15_LIndex() {
+	s := verifServer()
+	k := vr.Tok("k")
+	p := c15Preset(s, k, "l", 3, c15MaxLen())
+	idx := vr.Int("idx")
+	reply, err, panicked := verifRun(s, "LINDEX", k, itoa(idx))
+	vr.Assert(!panicked, "C15.lindex.nopanic")
+	if panicked {
+		return
+	}
+	if p.kind == kOther {
+		vr.Assert(err != nil, "C15.lindex.wrongtype")
+	} else {
+		n := len(p.list)
+		i := idx
+		if i < 0 {
+			i = n + i
+		}
+		want := "$-1\r\n"
+		if i >= 0 && i < n {
+			want = encBulk(p.list[i])
+		}
+		vr.Assert(err == nil && string(reply) == want, "C15.lindex.reply")
+	}
+	c15Unchanged(s, k, p, "C15.lindex.unchanged")
+	vr.Reach("end")
+}
+
 func Verif_C15_LRange() {
 	s := verifServer()
 	k := vr.Tok("k")
-	l := symList("l", 3)
-	verifPreset(s, 0, k, l)
+	p := c15Preset(s, k, "l", 3, c15MaxLen())
 	start, end := vr.Int("start"), vr.Int("end")
 	reply, err, panicked := verifRun(s, "LRANGE", k, itoa(start), itoa(end))
 	vr.Assert(!panicked, "C15.lrange.nopanic")
 	if panicked {
 		return
 	}
-	vr.Assert(err == nil, "C15.lrange.noerror")
-	if err != nil {
+	if p.kind == kOther {
+		vr.Assert(err != nil, "C15.lrange.wrongtype")
+	} else {
+		var want []string
+		if a, b, ok := refNormRange(len(p.list), start, end); ok {
+			want = p.list[a : b+1]
+		}
+		vr.Assert(err == nil && string(reply) == encBulkArray(want), "C15.lrange.reply")
+	}
+	c15Unchanged(s, k, p, "C15.lrange.unchanged")
+	vr.Reach("end")
+}
+
+func Verif_C15_LSet() {
+	s := verifServer()
+	k := vr.Tok("k")
+	p := c15Preset(s, k, "l", 3, c15MaxLen())
+	idx := vr.Int("idx")
+	v := vr.Tok("v")
+	reply, err, panicked := verifRun(s, "LSET", k, itoa(idx), v)
+	vr.Assert(!panicked, "C15.lset.nopanic")
+	if panicked {
 		return
 	}
-	var want []string
-	if a, b, ok := refNormRange(len(l), start, end); ok {
-		want = l[a : b+1]
+	n := len(p.list)
+	i := idx
+	if i < 0 {
+		i = n + i
 	}
-	vr.Assert(string(reply) == encBulkArray(want), "C15.lrange.reply")
-	after, ok := storedList(s, 0, k)
-	vr.Assert(ok && listEq(after, l), "C15.lrange.unchanged")
+	if p.kind != kList || i < 0 || i >= n {
+		vr.Assert(err != nil, "C15.lset.error")
+		c15Unchanged(s, k, p, "C15.lset.error_unchanged")
+	} else {
+		want := append([]string{}, p.list...)
+		want[i] = v
+		vr.Assert(err == nil && string(reply) == "+OK\r\n", "C15.lset.reply")
+		c15PostList(s, k, want, "C15.lset.post")
+	}
+	vr.Reach("end")
+}
+
+func Verif_C15_LTrim() {
+	s := verifServer()
+	k := vr.Tok("k")
+	p := c15Preset(s, k, "l", 3, c15MaxLen())
+	start, end := vr.Int("start"), vr.Int("end")
+	reply, err, panicked := verifRun(s, "LTRIM", k, itoa(start), itoa(end))
+	vr.Assert(!panicked, "C15.ltrim.nopanic")
+	if panicked {
+		return
+	}
+	if p.kind == kOther {
+		vr.Assert(err != nil, "C15.ltrim.wrongtype")
+		c15Unchanged(s, k, p, "C15.ltrim.wrongtype_unchanged")
+	} else {
+		var want []string
+		if a, b, ok := refNormRange(len(p.list), start, end); ok {
+			want = p.list[a : b+1]
+		}
+		vr.Assert(err == nil && string(reply) == "+OK\r\n", "C15.ltrim.reply")
+		c15PostList(s, k, want, "C15.ltrim.post")
+	}
+	vr.Reach("end")
+}
+
+// refLRem removes up to |count| elements equal to v (all when count == 0), from the head for
+// count >= 0 and from the tail for count < 0.
+func refLRem(l []string, count int, v string) ([]string, int) {
+	limit := count
+	if limit < 0 {
+		limit = -limit
+	}
+	removed := 0
+	keep := make([]bool, len(l))
+	if count >= 0 {
+		for i := 0; i < len(l); i++ {
+			keep[i] = true
+			if (count == 0 || removed < limit) && l[i] == v {
+				keep[i] = false
+				removed++
+			}
+		}
+	} else {
+		for i := len(l) - 1; i >= 0; i-- {
+			keep[i] = true
+			if removed < limit && l[i] == v {
+				keep[i] = false
+				removed++
+			}
+		}
+	}
+	var out []string
+	for i := range l {
+		if keep[i] {
+			out = append(out, l[i])
+		}
+	}
+	return out, removed
+}
+
+func Verif_C15_LRem() {
+	s := verifServer()
+	k := vr.Tok("k")
+	p := c15Preset(s, k, "l", 3, c15MaxLen())
+	count := vr.Int("count")
+	// |count| of the minimum int64 overflows in any implementation; outside the claim
+	vr.Assume(count != -9223372036854775808)
+	v := vr.Tok("v")
+	reply, err, panicked := verifRun(s, "LREM", k, itoa(count), v)
+	vr.Assert(!panicked, "C15.lrem.nopanic")
+	if panicked {
+		return
+	}
+	if p.kind == kOther {
+		vr.Assert(err != nil, "C15.lrem.wrongtype")
+		c15Unchanged(s, k, p, "C15.lrem.wrongtype_unchanged")
+	} else {
+		want, removed := refLRem(p.list, count, v)
+		vr.Assert(err == nil && string(reply) == encInt(removed), "C15.lrem.reply")
+		if p.kind == kAbsent {
+			c15Unchanged(s, k, p, "C15.lrem.absent_unchanged")
+		} else {
+			c15PostList(s, k, want, "C15.lrem.post")
+		}
+	}
+	vr.Reach("end")
+}
+
+func c15Push(cmd string, left bool, x bool) {
+	s := verifServer()
+	k := vr.Tok("k")
+	p := c15Preset(s, k, "l", 3, c15MaxLen())
+	m := 1 + vr.Choose("m", 2)
+	argv := []string{cmd, k}
+	var elems []string
+	for i := 0; i < m; i++ {
+		e := vr.Tok("e" + strconv.Itoa(i))
+		elems = append(elems, e)
+		argv = append(argv, e)
+	}
+	reply, err, panicked := verifRun(s, argv...)
+	vr.Assert(!panicked, "C15."+cmd+".nopanic")
+	if panicked {
+		return
+	}
+	if p.kind == kOther || (x && p.kind == kAbsent) {
+		vr.Assert(err != nil, "C15."+cmd+".error")
+		c15Unchanged(s, k, p, "C15."+cmd+".error_unchanged")
+	} else {
+		var want []string
+		if left {
+			// the repository documents and tests "prepends the values" in argument order
+			want = append(append([]string{}, elems...), p.list...)
+		} else {
+			want = append(append([]string{}, p.list...), elems...)
+		}
+		vr.Assert(err == nil && string(reply) == encInt(len(want)), "C15."+cmd+".reply")
+		c15PostList(s, k, want, "C15."+cmd+".post")
+	}
+	vr.Reach("end")
+}
+
+func Verif_C15_LPush()  { c15Push("LPUSH", true, false) }
+func Verif_C15_LPushX() { c15Push("LPUSHX", true, true) }
+func Verif_C15_RPush()  { c15Push("RPUSH", false, false) }
+func Verif_C15_RPushX() { c15Push("RPUSHX", false, true) }
+
+func c15Pop(cmd string, left bool) {
+	s := verifServer()
+	k := vr.Tok("k")
+	p := c15Preset(s, k, "l", 3, c15MaxLen())
+	withCount := vr.Choose("withcount", 2) == 1
+	count := 1
+	argv := []string{cmd, k}
+	if withCount {
+		count = vr.Int("count")
+		// the property fixes the meaning of a non-negative count only
+		vr.Assume(count >= 0)
+		argv = append(argv, itoa(count))
+	}
+	reply, err, panicked := verifRun(s, argv...)
+	vr.Assert(!panicked, "C15."+cmd+".nopanic")
+	if panicked {
+		return
+	}
+	if p.kind == kOther {
+		vr.Assert(err != nil, "C15."+cmd+".wrongtype")
+		c15Unchanged(s, k, p, "C15."+cmd+".wrongtype_unchanged")
+		vr.Reach("end")
+		return
+	}
+	n := len(p.list)
+	if n == 0 {
+		// absent key or empty list: nil reply, nothing changes
+		vr.Assert(err == nil && (string(reply) == "$-1\r\n" || string(reply) == "*-1\r\n" || string(reply) == "*0\r\n"), "C15."+cmd+".empty_reply")
+		c15PostList(s, k, nil, "C15."+cmd+".empty_post")
+		vr.Reach("end")
+		return
+	}
+	c := count
+	if c > n {
+		c = n
+	}
+	var popped, rest []string
+	if left {
+		popped = p.list[:c]
+		rest = p.list[c:]
+	} else {
+		for i := 0; i < c; i++ {
+			popped = append(popped, p.list[n-1-i])
+		}
+		rest = p.list[:n-c]
+	}
+	if !withCount {
+		vr.Assert(err == nil && string(reply) == encBulk(popped[0]), "C15."+cmd+".reply")
+	} else {
+		vr.Assert(err == nil && string(reply) == encBulkArray(popped), "C15."+cmd+".reply_count")
+	}
+	c15PostList(s, k, rest, "C15."+cmd+".post")
+	vr.Reach("end")
+}
+
+func Verif_C15_LPop() { c15Pop("LPOP", true) }
+func Verif_C15_RPop() { c15Pop("RPOP", false) }
+
+// LMOVE: both keys must hold lists (the repository documents an error otherwise); one element
+// moves from the chosen end of the source to the chosen end of the destination; source and
+// destination may be the same key.
+func Verif_C15_LMove() {
+	s := verifServer()
+	src := vr.Tok("src")
+	same := vr.Choose("same", 2) == 1
+	dst := src
+	maxLen := 2
+	if vr.Tier() > 0 {
+		maxLen = 3
+	}
+	ps := c15Preset(s, src, "ls", 3, maxLen)
+	pd := ps
+	if !same {
+		dst = vr.Tok("dst")
+		vr.Assume(src != dst)
+		pd = c15Preset(s, dst, "ld", 3, maxLen)
+	}
+	from := vr.Choose("from", 2)
+	to := vr.Choose("to", 2)
+	names := []string{"LEFT", "RIGHT"}
+	reply, err, panicked := verifRun(s, "LMOVE", src, dst, names[from], names[to])
+	vr.Assert(!panicked, "C15.lmove.nopanic")
+	if panicked {
+		return
+	}
+	if ps.kind != kList || pd.kind != kList || len(ps.list) == 0 {
+		// nothing to move / not lists: no element may be moved, nothing may change
+		vr.Assert(err != nil || string(reply) == "$-1\r\n", "C15.lmove.error")
+		c15Unchanged(s, src, ps, "C15.lmove.error_src_unchanged")
+		if !same {
+			c15Unchanged(s, dst, pd, "C15.lmove.error_dst_unchanged")
+		}
+		vr.Reach("end")
+		return
+	}
+	var elem string
+	var srcRest []string
+	if from == 0 {
+		elem = ps.list[0]
+		srcRest = ps.list[1:]
+	} else {
+		elem = ps.list[len(ps.list)-1]
+		srcRest = ps.list[:len(ps.list)-1]
+	}
+	base := pd.list
+	if same {
+		base = srcRest
+	}
+	var wantDst []string
+	if to == 0 {
+		wantDst = append([]string{elem}, base...)
+	} else {
+		wantDst = append(append([]string{}, base...), elem)
+	}
+	vr.Assert(err == nil, "C15.lmove.noerror")
+	if err == nil {
+		vr.Assert(string(reply) == "+OK\r\n" || string(reply) == encBulk(elem), "C15.lmove.reply")
+	}
+	if !same {
+		c15PostList(s, src, srcRest, "C15.lmove.src_post")
+	}
+	c15PostList(s, dst, wantDst, "C15.lmove.dst_post")
 	vr.Reach("end")
 }
